@@ -33,10 +33,20 @@ def log(*a):
     print("[check]", *a, file=sys.stderr, flush=True)
 
 
-def sh(cmd, cwd=None, env=None, timeout=None, check=False, capture=True):
+def _limit_mem(gb):
+    def f():
+        import resource
+        resource.setrlimit(resource.RLIMIT_AS, (gb << 30, gb << 30))
+    return f
+
+
+def sh(cmd, cwd=None, env=None, timeout=None, check=False, capture=True, mem_gb=None):
     t0 = time.time()
+    if mem_gb is None and not isinstance(cmd, str) and cmd and os.path.basename(cmd[0]) in ("coqc", "make", "coqchk"):
+        mem_gb = 14   # a runaway conversion/unification must not exhaust the sandbox
     try:
         p = subprocess.run(cmd, cwd=cwd, env=env, timeout=timeout, shell=isinstance(cmd, str),
+                           preexec_fn=_limit_mem(mem_gb) if mem_gb else None,
                            stdout=subprocess.PIPE if capture else None,
                            stderr=subprocess.STDOUT if capture else None, text=True)
         rc, out = p.returncode, p.stdout or ""
